@@ -654,11 +654,7 @@ class _SetOperation(Selectable, Term):  # type:ignore[misc]
             querystring = "({query})".format(query=querystring)
 
         if ctx.with_alias:
-            return format_alias_sql(
-                querystring,
-                self.alias or self._table_name,  # type:ignore[arg-type]
-                ctx,
-            )
+            return format_alias_sql(querystring, self.alias, ctx)
 
         return querystring
 
